@@ -67,6 +67,7 @@ func plan(tier string, seed int64) []driver.Case {
 			}
 		}
 	}
+	cases = append(cases, shareGenerationCases()...)
 	// (b) operator level, puppet-driven
 	for _, e := range catalog.All() {
 		if e.Flags.Has(catalog.Creation) {
@@ -798,10 +799,20 @@ func runOp(c driver.Case) driver.Result {
 		return res
 	}
 	if !returned(3 * time.Second) {
-		res.Verdict, res.Key = driver.Inconclusive, "subscribe-did-not-return"
-		res.Msg = fmt.Sprintf("%s (%s after %d values): Subscribe had not returned 3s after every source ended", name, end, nv)
-		res.Dirty = true
-		return res
+		// every source has ended (or the subscription was cut): a Subscribe call that still waits is either slow
+		// (inconclusive) or provably stuck - every goroutine of the process blocked
+		if st, dump, _ := quiesce.Call(func() { <-subDone }, 10*time.Second); st == quiesce.Hung {
+			res.Verdict, res.Key = driver.Violated, "C03/hang/"+quiesce.BlockedSite(dump)
+			res.Msg = fmt.Sprintf("%s (%s after %d values): every source has ended but the Subscribe call never returns; every goroutine of the process is blocked", name, end, nv)
+			res.Witness = dump
+			res.Dirty = true
+			return res
+		} else if st != quiesce.Returned {
+			res.Verdict, res.Key = driver.Inconclusive, "subscribe-did-not-return"
+			res.Msg = fmt.Sprintf("%s (%s after %d values): Subscribe had not returned after every source ended (no hang proof)", name, end, nv)
+			res.Dirty = true
+			return res
+		}
 	}
 	// asynchronous operators (Delay, ObserveOn…) deliver the terminal later
 	waitClosed := time.Now().Add(3 * time.Second)
@@ -1031,6 +1042,8 @@ func runCase(c driver.Case) driver.Result {
 		return runSubSpin(c)
 	case "afterclose":
 		return runAfterClose(c)
+	case "sharegen":
+		return runShareGenerations(c)
 	case "sync":
 		return runSync(c)
 	case "creation":
